@@ -193,8 +193,13 @@ pub fn gen(tier: &str, rng: &mut Rng, out: &mut Vec<String>) {
     // (b0) positive controls: library-signed spends are accepted
     for (name, _) in &ts { for ty in [SIGHASH_ALL, SIGHASH_NONE, SIGHASH_SINGLE, SIGHASH_ALL | SIGHASH_ANYONECANPAY, SIGHASH_NONE | SIGHASH_ANYONECANPAY, SIGHASH_SINGLE | SIGHASH_ANYONECANPAY] {
         for g in ["g", "p"] { out.push(format!("c03.signed {} {} {} 1", name, ty | SIGHASH_FORKID, g)); } } }
-    // (a) the authorisation search: every opcode sequence up to length 2 (3 sampled / thorough: 3 full on p2pkh, 4 sampled)
-    for (ti, (_, lock)) in ts.iter().enumerate() {
+    // (a) the authorisation search: every opcode sequence up to length 2 (3 sampled / thorough: 3 full on p2pkh, 4 sampled);
+    // besides the key-locked templates, two locking scripts that READ THE ALT STACK first (unsatisfiable: the locking script
+    // starts with an empty alt stack whatever the unlocking script left on its own)
+    let mut ts_a = ts.clone();
+    ts_a.push(("altread", vec![0x6c]));
+    ts_a.push(("altread2", vec![0x6c, 0x6c, 0x87]));
+    for (ti, (_, lock)) in ts_a.iter().enumerate() {
         let mut alpha = alphabet();
         alpha.extend(swallow_atoms(lock.len()));
         let rules: [&str; 2] = ["g", "p"];
